@@ -117,6 +117,12 @@ public class Float64 {
         }
         return v(sum + comp);
     }
+    /** identity that materialises a function / sequence value (TLC otherwise re-evaluates a function constructor's body on every application). */
+    public static Value FSeq(final Value s) {
+        final TupleValue t = (TupleValue) s.toTuple();
+        if (t == null) { throw new RuntimeException("FSeq: not a sequence: " + s); }
+        return t;
+    }
     /** decimal rendering, for messages only. */
     public static Value FStr(final Value a) { return new StringValue(Double.toString(d(a))); }
 }
